@@ -42,6 +42,11 @@ class LSim(mosaik_api_v3.Simulator):
         self._seen()
         STEPS.append((time.time(), self.sid, time_))
         yield asyncio.sleep(0)
+        f = self.fault
+        if f and f[0] == 'step' and self.n['step'] == f[1] and '@' in f[2]:
+            # the failure surfaces k event-loop iterations later (sweeps the moment of the failure relative to the
+            # other simulators' wake-ups)
+            for _ in range(int(f[2].split('@')[1])): yield asyncio.sleep(0)
         self._fault('step')
         return time_ + 1 if self.typ == 'time-based' else None
     def get_data(self, outputs):
@@ -91,7 +96,7 @@ def one(topology, faulty, fkind, req, index, remote):
     """topology: 'chain' A->B->C or 'pair' A->B ; faulty: index of the failing simulator"""
     FINALIZED.clear(); STEPS.clear(); AFTER.clear()
     logf = tempfile.mktemp(prefix='c14-', suffix='.log', dir=common.BUILD)
-    n = 2 if topology in ('pair', 'trig') else 3
+    n = 2 if topology in ('pair', 'trig') else 3      # 'trigfree': A -> B (event-based, waits for triggers) and an unconnected third simulator
     cfg = {'L': {'python': 'harness.props.c14:LSim'}, 'P': {'python': 'harness.props.c14:PSim'},
            'R': {'cmd': f'{common.PY} -m harness.remote_sim %(addr)s', 'env': {'PYTHONPATH': f'{common.REPO}:{common.VERIF}', 'LOGURU_LEVEL': 'CRITICAL'}}}
     tw = TaskWarnings(); alog = logging.getLogger('asyncio'); old_level = alog.level
@@ -113,8 +118,8 @@ def one(topology, faulty, fkind, req, index, remote):
             elif remote == 'all':
                 ents.append(w.start('R', sim_id=f'S{i}', beh={'type': 'time-based', 'step_size': 1, 'default_output': [None, ['po']]}, log=logf, seed=i, fault=None).M())
             else:
-                ents.append(w.start('P' if (i == faulty and ':plain:' in fkind) else 'L', sim_id=f'S{i}', fault=fault, typ=('event-based' if topology == 'trig' and i == 1 else 'time-based')).M())
-        for i in range((n - 1) if topology != 'free' else 1):
+                ents.append(w.start('P' if (i == faulty and ':plain:' in fkind) else 'L', sim_id=f'S{i}', fault=fault, typ=('event-based' if topology in ('trig', 'trigfree') and i == 1 else 'time-based')).M())
+        for i in range((n - 1) if topology not in ('free', 'trigfree') else 1):
             w.connect(ents[i], ents[i + 1], ('po', 'i'))      # 'free': A->B and an unconnected third simulator
         try:
             w.run(until=4, print_progress=False)
@@ -192,6 +197,12 @@ def cases(tier):
                     if tier == 'thorough' or (index <= 1 and topology == 'pair') or (topology == 'chain' and faulty == 1 and index == 1):
                         out.append((topology, faulty, 'raise', req, index, True))
                         out.append((topology, faulty, 'exit', req, index, True))
+    # the moment of the failure swept over event-loop iterations: an unconnected simulator fails k iterations into its
+    # step while a triggered simulator is being woken / waits for its next step to settle
+    for index in ((1, 2) if tier == 'quick' else (0, 1, 2, 3)):
+        for k in range(0, 14 if tier == 'quick' else 30):
+            out.append(('trigfree', 2, f'raise@{k}', 'step', index, False))
+            if tier == 'thorough': out.append(('trigfree', 0, f'raise@{k}', 'step', index, False))
     return out
 
 
@@ -218,6 +229,8 @@ def run(out, info, tier, seed):
         if fails: violations.append(dict(d, observed=fails, result=res))
         if req != 'setup_done': nontriv += 1
         if len(samples) < 2: samples.append(dict(d, result=res))
+        if hist['HANG'] >= 4:
+            out.notes.append('stopped after 4 runs that did not terminate (each costs the 6 s watchdog)'); break
     for v in violations[:1]: out.violations.append(v)
     if zombies and 'F16z' in kf:
         out.known_hits.append((kf['F16z'], f'{zombies} simulator child process(es) were never waited for (zombies until the interpreter exits)'))
@@ -226,6 +239,7 @@ def run(out, info, tier, seed):
     out.coverage = {'evaluations': n_eval, 'distinct_nontrivial': nontriv,
                     'rule': 'topologies pair (A->B) and chain (A->B->C) x failing simulator x request (setup_done, step #0/#1/#3, get_data #0/#2) x fault kind '
                             '(exception in handler: RuntimeError / StopIteration / KeyError raised by generator-style and by plain handlers; for subprocess simulators also os._exit) x transport of the failing simulator (in-process / subprocess; thorough: all combinations); '
+                            'plus the moment of the failure swept over 14 (thorough: 30) event-loop iterations for an unconnected failing simulator next to a triggered simulator that waits for its next step to settle; '
                             'non-trivial = fault during the stepping phase',
                     'samples': samples, 'outcome_histogram': dict(hist), 'monitor_failures': len(violations), 'zombie_children': zombies}
 
